@@ -603,7 +603,8 @@ class BookOracle(Oracle):
         if r.get("k") is not None:
             k = Fraction(r["k"])
             cap = k * mark if is_buy else mark / k
-        outs = REF.trade_outcomes(side, is_buy, request, token, "limit" if limit is not None else "market", limit, cap)
+        outs = REF.trade_outcomes(side, is_buy, request, token, "limit" if limit is not None else "market", limit, cap,
+                                  inexact=ctx["shrunk"])
         final, seen = [], set()
 
         def add(o):
